@@ -378,27 +378,71 @@ def translate_timer(repo):
     CURFILE[0] = path
     tree = ast.parse(open(path).read())
     fd = M.find_method(tree, "JobTimer", "calc_next_exec")
-    fields = {"__job_type": ("pt_type", "jobtype", None), "__timing": ("pt_timing", "timingu", "set_pt_timing"),
-              "__next_exec": ("pt_next", "datetime", "set_pt_next"), "__skip": ("pt_skip", "bool", None)}
+    fields = TIMER_FIELDS
     dicts = {"JOB_NEXT_DAYLIKE_MAPPING": ("job_next_daylike_mapping", ["datetime", "time"], "datetime")}
     m0 = M.Method(fd, known, "pytimer", fields, dicts, folded={"ref": "None"})
     t0 = m0.emit("calc_next_exec_none")
     m1 = M.Method(fd, known, "pytimer", fields, dicts, recursive_as="calc_next_exec_none")
     t1 = m1.emit("calc_next_exec")
     head = HEADER % path + "From Gen Require Import GenOccur.\n\n"
-    return head + disp + "\n" + t0 + "\n" + t1
+    return head + disp + "\n" + t0 + "\n" + t1 + "\n" + translate_timer_rest(repo)
+
+
+TIMER_FIELDS = {"__job_type": ("pt_type", "jobtype", "set_pt_type"), "__timing": ("pt_timing", "timingu", "set_pt_timing"),
+                "__next_exec": ("pt_next", "datetime", "set_pt_next"), "__skip": ("pt_skip", "bool", "set_pt_skip")}
+
+
+def translate_timer_rest(repo):
+    """JobTimer.__init__, .datetime, .timedelta (appended to GenTimer.v)"""
+    import py2v_methods as M
+    import py2v_objs as O
+    path = os.path.join(repo, "scheduler/base/job_timer.py")
+    CURFILE[0] = path
+    tree = ast.parse(open(path).read())
+    out = []
+    ANN["TimingJobTimerUnion"] = "timingu"
+    for meth, name in (("datetime", "jobtimer_datetime"), ("timedelta", "jobtimer_timedelta")):
+        fd = M.find_method(tree, "JobTimer", meth)
+        out.append(O.ObjMethod(fd, {}, "pytimer", TIMER_FIELDS, {}, {}, {}).emit(name))
+    fd = M.find_method(tree, "JobTimer", "__init__")
+    m = O.ObjMethod(fd, {}, "pytimer", TIMER_FIELDS, {}, {}, {})
+    m.selfmethods = {("calc_next_exec", 0): "calc_next_exec_none"}
+    m.skip_fields = {"__lock": "threading.RLock()"}
+    out.append(m.emit("jobtimer_init"))
+    args = [a for a, _ in m.params]
+    out.append("Definition jobtimer_new %s : res pytimer := jobtimer_init blank_pytimer %s.\n" % (
+        " ".join("(%s : %s)" % (a, COQTY[t]) for a, t in m.params), " ".join(args)))
+    return "\n".join(out)
+
+
+JOB_FIELDS = {"__mark_delete": ("pj_mark_delete", "bool", "set_pj_mark_delete"), "__max_attempts": ("pj_max_attempts", "int", None),
+              "__attempts": ("pj_attempts", "int", None), "__delay": ("pj_delay", "bool", None),
+              "__skip_missing": ("pj_skip_missing", "bool", None), "__start": ("pj_start", "datetime", None),
+              "__stop": ("pj_stop", "opt:datetime", None), "__tzinfo": ("pj_tzinfo", "tzinfo", None),
+              "__timers": ("pj_timers", "list:pytimer", "set_pj_timers")}
+JOB_ALIASES = {"__pending_timer": ("__timers", "pj_pending", "set_pj_pending", "pytimer")}
+TIMER_METHODS = {("pytimer", "datetime"): ("jobtimer_datetime", [], "datetime", "property"),
+                 ("pytimer", "timedelta"): ("jobtimer_timedelta", ["datetime"], "timedelta", "pure"),
+                 ("pytimer", "calc_next_exec"): ("calc_next_exec", ["opt:datetime"], "pytimer", "mutator")}
 
 
 def translate_jobstate(repo):
+    """BaseJob.has_attempts_remaining, ._calc_next_exec, .timedelta, .datetime (+ template check of get_pending_timer)"""
     import py2v_methods as M
+    import py2v_objs as O
+    upath = os.path.join(repo, "scheduler/base/job_util.py")
+    CURFILE[0] = upath
+    O.check_template(ast.parse(open(upath).read()), "get_pending_timer", O.TEMPLATES["get_pending_timer"])
     path = os.path.join(repo, "scheduler/base/job.py")
     CURFILE[0] = path
     tree = ast.parse(open(path).read())
-    fd = M.find_method(tree, "BaseJob", "has_attempts_remaining")
-    fields = {"__mark_delete": ("pj_mark_delete", "bool", None), "__max_attempts": ("pj_max_attempts", "int", None),
-              "__attempts": ("pj_attempts", "int", None)}
-    m = M.Method(fd, {}, "pyjobstate", fields, {})
-    return HEADER % path + m.emit("has_attempts_remaining")
+    templates = {"get_pending_timer": ("py_pending_index", ["list:pytimer"], "index:__timers")}
+    out = []
+    for meth, name in (("has_attempts_remaining", "has_attempts_remaining"), ("_calc_next_exec", "job_calc_next_exec"),
+                       ("timedelta", "job_timedelta"), ("datetime", "job_datetime")):
+        fd = M.find_method(tree, "BaseJob", meth)
+        out.append(O.ObjMethod(fd, {}, "pyjobstate", JOB_FIELDS, JOB_ALIASES, TIMER_METHODS, templates).emit(name))
+    return HEADER % path + "From Gen Require Import GenOccur GenTimer.\n\n" + "\n".join(out)
 
 
 def translate_jobutil(repo):
@@ -452,6 +496,7 @@ def main():
         print(__doc__)
         return 2
     repo, outdir = sys.argv[1], sys.argv[2]
+    sys.modules.setdefault("py2v", sys.modules[__name__])    # the helper modules import this one by name
     os.makedirs(outdir, exist_ok=True)
     status = {}
     for fname, src, want in TARGETS:
